@@ -23,6 +23,7 @@ CASES = [  # (defect id, property, commit, demo, rules expected)
     ("D09", "C03", "a4ff4da", "d09_towards_zero_division.py", ["R03.6"]),
     ("D19", "C08", "4fc7de0", "d19_iso_year_minus_9999.py", ["R08.4"]),
     ("D20", "C08", "0b77679", "d20_hour_24_on_last_day.py", ["R08.9"]),
+    ("D21", "C01", "535f8bc", "d21_badi_year_table.py", ["R01.9"]),
 ]
 demos = os.path.join(HERE, "demos")
 for did, prop, commit, demo, rules in CASES:
